@@ -1747,6 +1747,11 @@ class GroupBy:
             return arr.iloc[indexer] if isinstance(arr, pd.Series) else arr[indexer]
 
         if index_by_groups:
+            if times is not None and len(times) != len(self):
+                # ema_grouped only sees the re-ordered rows, which always number len(self)
+                raise ValueError(
+                    f"Length of times ({len(times)}) does not match length of group keys ({len(self)})"
+                )
             indexer = self._group_sort_indexer
             result_index = self._build_group_sorted_index(common_index)
             group_counts = self.ikey_count[self._labels_argsort]
